@@ -703,6 +703,78 @@ fn check_vm(c: &VmCase, obs: &mut Obs) -> Check {
 
 // ================================================================== property
 
+// ---------------------------------------------------------------- secp256r1, constructed high s
+//
+// (r, s) with n/2 < s < 2^255 is still encodable (the top bit of byte 32 carries the parity).
+// Pick a nonce k, R = k·G, r = R.x, choose such an s and solve d = (s·k − z)·r⁻¹: the signature is
+// a valid signature of d·G. `recover` must return d·G, and so must the re-encoding (r, n − s, !v).
+
+#[derive(Debug, Clone, Serialize, Deserialize)]
+pub struct R1HighS {
+    pub k: Hx<32>,
+    pub s_off: u64,
+    pub msg: Hx<32>,
+}
+
+fn r1_high_s_case() -> impl Strategy<Value = R1HighS> {
+    (r1_secret(), prop_oneof![0u64..16, any::<u64>()], msg32()).prop_map(|(k, s_off, msg)| R1HighS { k, s_off, msg })
+}
+
+fn check_r1_high_s(c: &R1HighS, obs: &mut Obs) -> Check {
+    use p256::elliptic_curve::ops::Reduce;
+    use p256::elliptic_curve::point::AffineCoordinates;
+    use p256::elliptic_curve::sec1::ToEncodedPoint;
+    use p256::elliptic_curve::Field;
+    use p256::elliptic_curve::PrimeField;
+    let h = |w: &str| Failure::new("harness-r1-high-s", w.to_string());
+    let k: p256::Scalar = Option::from(p256::Scalar::from_repr(c.k.0.into())).ok_or_else(|| h("k"))?;
+    if bool::from(k.is_zero()) {
+        return Ok(());
+    }
+    let rp = (p256::ProjectivePoint::GENERATOR * k).to_affine();
+    let r = <p256::Scalar as Reduce<p256::U256>>::reduce_bytes(&rp.x());
+    // s = 2^255 - 1 - s_off  (> n/2, top bit clear)
+    let mut sb = [0xffu8; 32];
+    sb[0] = 0x7f;
+    let sb = be_sub(sb, c.s_off);
+    let sh: p256::Scalar = Option::from(p256::Scalar::from_repr(sb.into())).ok_or_else(|| h("s"))?;
+    let z = <p256::Scalar as Reduce<p256::U256>>::reduce_bytes(&c.msg.0.into());
+    let rinv: p256::Scalar = Option::from(r.invert()).ok_or_else(|| h("r = 0"))?;
+    let d = (sh * k - z) * rinv;
+    if bool::from(d.is_zero()) {
+        return Ok(());
+    }
+    let q = (p256::ProjectivePoint::GENERATOR * d).to_affine().to_encoded_point(false);
+    let mut want = [0u8; 64];
+    want[..32].copy_from_slice(q.x().ok_or_else(|| h("qx"))?);
+    want[32..].copy_from_slice(q.y().ok_or_else(|| h("qy"))?);
+    let y_odd: bool = rp.y_is_odd().into();
+    let m = Message::from_bytes(c.msg.0);
+    let mut sig = [0u8; 64];
+    sig[..32].copy_from_slice(&r.to_repr());
+    sig[32..].copy_from_slice(&sb);
+    if y_odd {
+        sig[32] |= 0x80;
+    }
+    let rec = fuel_crypto::secp256r1::recover(&Bytes64::from(sig), &m);
+    ensure!(matches!(&rec, Ok(p) if **p == want), "r1:high-s:recover-not-signer", "constructed high-s signature {} msg {:?}: recover = {rec:?}, signer {}", hex::encode(sig), c.msg, hex::encode(want));
+    // the re-encoding (r, n - s, !v) is the same signature
+    let low = -sh;
+    let mut sig2 = [0u8; 64];
+    sig2[..32].copy_from_slice(&r.to_repr());
+    sig2[32..].copy_from_slice(&low.to_repr());
+    if sig2[32] & 0x80 == 0 {
+        if !y_odd {
+            sig2[32] |= 0x80;
+        }
+        let rec2 = fuel_crypto::secp256r1::recover(&Bytes64::from(sig2), &m);
+        ensure!(matches!(&rec2, Ok(p) if **p == want), "r1:high-s:re-encoding-recovers-other-key", "low-s re-encoding {} recovers {rec2:?}, signer {}", hex::encode(sig2), hex::encode(want));
+    }
+    obs.class("r1-high-s");
+    obs.nontrivial(&(c.k.0[31], c.s_off.leading_zeros(), y_odd));
+    Ok(())
+}
+
 pub fn property() -> Property {
     Property {
         id: "C17",
@@ -716,6 +788,7 @@ pub fn property() -> Property {
         parts: vec![
             gen_part("k1-laws", "secp256k1 sign/recover/verify laws through the default API", (60_000, 2_000_000), |_c: &Ctx| ec_case(k1_secret()), check_k1),
             gen_part("r1-laws", "secp256r1 sign_prehashed/recover laws", (6_000, 150_000), |_c: &Ctx| ec_case(r1_secret()), check_r1),
+            gen_part("r1-high-s", "secp256r1 signatures constructed with n/2 < s < 2^255: recover returns the constructed signer, and so does the low-s re-encoding", (6_000, 150_000), |_c: &Ctx| r1_high_s_case(), check_r1_high_s),
             gen_part("ed-signed", "dalek-signed messages with one mutation (or none)", (60_000, 2_000_000), |_c: &Ctx| ed_case(), check_ed),
             gen_part("ed-torsion", "constructed torsion witnesses", (30_000, 1_000_000), |_c: &Ctx| torsion_case(), check_torsion),
             gen_part("ed-raw", "structured random key / R / S / message bytes", (60_000, 2_000_000), |_c: &Ctx| ed_raw(), check_ed_raw),
